@@ -29,7 +29,10 @@ def run(F, rep):
     rep.run(dt_graph.sequence_of_path_table, F, rep, "C03.8")
     # edge symmetry of graphs produced by (re)compression: terminal extensions of built nodes and the step rule of both routes
     rep.run(dt_compress.hash_builder_table, F, rep, "C03.6")
+    # ... and the three private functions of the k-mer route interpreted together on scripted lines of k-mers
+    rep.run(dt_compress.kmer_chain_table, F, rep, "C03.6")
     rep.run(dt_compress.graph_builder_table, F, rep, "C03.6")
+    rep.run(dt_compress.graph_chain_table, F, rep, "C03.6")
     rep.run(dt_tables.hash_step_table, F, rep, "C03.6")
     rep.run(dt_tables.graph_step_table, F, rep, "C03.6")
     # the edge set equals the observed (K+1)-mers only if every observation's flanking bases reach the table: both summarizers
